@@ -19,4 +19,28 @@ CHECKS = {
             part("c05b", "pkg/task/queue", "TestVerifC05b", ["zz_verif_c05_test.go"], shards={"quick": 8, "thorough": 16}),
         ],
     },
+    "C07": {
+        "level": "model_checking",
+        "engine": "E2",
+        "technique": "exhaustive enumeration of queue layouts on the real combine functions vs reference",
+        "level_text": "Every queue layout of length <= 4 (quick) / 5 (thorough) over a 17-kind task alphabet (2 hooks x HookRun/EnableKubernetesBindings/no-metadata x context group shapes incl. repeated and interleaved groups x monitor ids) is loaded into a real TaskQueue; both the private combine function and its exported twin are called on the head and compared with a reference written from the statement on full context sequences, monitor ids and remaining queue content.",
+        "level_note": "Trusted: the reference in the harness. Bounded to the alphabet and length; concurrent appends during combination are explored by part b (scheduler) when present.",
+        "rule": "all layouts (product enumeration) of tasks from the alphabet; non-trivial = something was merged; distinct = distinct (contexts, monitor ids, remaining queue) outcome",
+        "parts": [
+            part("c07a", "pkg/shell-operator", "TestVerifC07a", ["zz_verif_c07_test.go"], shards={"quick": 8, "thorough": 16}),
+        ],
+    },
+    "C15": {
+        "level": "model_checking",
+        "engine": "E2",
+        "technique": "exhaustive enumeration of rule graphs x queries x cache histories x map orders on the real chain search vs BFS reachability",
+        "level_text": "Every set of conversion rules up to a size bound over versions {v1,v1beta1,v2,v3} in short/grouped/foreign-group spellings (and longer chains/forks over v1..v7) is loaded into the real ChainStorage; every (from,to) request in every spelling is asked on a fresh storage and on storages whose path cache was filled by the other requests, under three controlled map iteration orders. Oracle: chain returned iff reachable by reference BFS, and every returned chain consists of declared rules, starts at from, ends at to, consecutive steps match.",
+        "level_note": "Trusted: reference BFS and version matching in the harness. chain.go is compiled with its map ranges routed through vrt.Keys (order chosen by the harness); Go's own random order is thereby replaced by 3 fixed orders. Bounded to the stated universe.",
+        "rule": "all subsets of the rule universe up to the size bound x all queries x {fresh, cached-fwd, cached-bwd} x 3 map orders; non-trivial = chain of >= 2 steps; distinct = distinct (rules, request, chain)",
+        "parts": [
+            part("c15a", "pkg/webhook/conversion", "TestVerifC15a", ["zz_verif_c15_test.go"], shards={"quick": 8, "thorough": 16},
+                 instrument={"files": [{"path": "pkg/webhook/conversion/chain.go",
+                                        "mapranges": ["c.PathsCache", "c.BaseFromToIndex", "c.BaseFromToIndex[k]", "c.BaseFromToIndex[fromVer]", "newPaths"]}]}),
+        ],
+    },
 }
